@@ -75,6 +75,15 @@ Fixpoint run (front : list seg) (last : seg) (s : st) (xs : list A) : list (seg 
   | x :: r => let '(g, s') := step front last s x in (g, s') :: run front last s' r
   end.
 
+(* PiecewiseEvaluator::new followed by a sequence of evaluate calls: the answers.
+   None = the `expect("no segments to pick from")` panic of `new`. *)
+Definition evaluator_answers (R : Type) (ev : seg -> A -> R) (segs : list seg) (xs : list A) : option (list R) :=
+  match split_last segs with
+  | None => None
+  | Some (front, last) =>
+      Some (map (fun xr => ev (fst (snd xr)) (fst xr)) (combine xs (run front last (init front last) xs)))
+  end.
+
 (* ---- evaluate_v ---- *)
 Fixpoint find_index (p : seg -> bool) (l : list seg) : option nat :=
   match l with
@@ -97,6 +106,10 @@ Fixpoint ev_v_run (segs : list seg) (prev : nat) (xs : list A) : option (list (A
   end.
 Definition ev_v (segs : list seg) (xs : list A) : option (list (A * seg)) :=
   match segs with [] => None | _ => ev_v_run segs 0 xs end.
+
+(* the values evaluate_v yields (it calls poly.evaluate on the chosen segment's piece) *)
+Definition ev_v_answers (R : Type) (evp : P -> A -> R) (segs : list seg) (xs : list A) : option (list R) :=
+  option_map (map (fun p => evp (spoly (snd p)) (fst p))) (ev_v segs xs).
 
 (* ---- &f + &g / &f - &g : the two-cursor merge (one transcription, instantiated twice) ---- *)
 Variable op : P -> P -> P.
@@ -187,17 +200,17 @@ Fixpoint zip_segments (fs : list A) (ks : list knot) : list S3 :=
   | _, _ => []
   end.
 Definition constrained_spline (ks : list knot) : option (list S3) :=
-  match ks, rev ks with
-  | (x0, y0) :: (x1, y1) :: _ :: _, (xn, yn) :: (xm, ym) :: _ =>
-      let fm := f_mid ks in
-      match fm, rev fm with
-      | f_x1 :: _, f_xm :: _ =>
-          let f_x0 := f_end0 y1 y0 x1 x0 f_x1 in
-          let f_xn := f_endn yn ym xn xm f_xm in
-          Some (zip_segments (f_x0 :: fm ++ [f_xn]) ks)
-      | _, _ => None
-      end
-  | _, _ => None                                          (* assert!(ks0n.len() >= 3) *)
+  match ks with
+  | k0 :: k1 :: _ :: _ =>
+      let fm := f_mid ks in                        (* f' at x1 .. xm; non-empty here *)
+      let kn := last ks k0 in                      (* ks0n.last() *)
+      let km := last (removelast ks) k0 in         (* ks0m.last() *)
+      let f_x1 := hd (fst k0) fm in                (* f_mid[0]; default never used *)
+      let f_xm := last fm (fst k0) in              (* f_mid.last() *)
+      let f_x0 := f_end0 (snd k1) (snd k0) (fst k1) (fst k0) f_x1 in
+      let f_xn := f_endn (snd kn) (snd km) (fst kn) (fst km) f_xm in
+      Some (zip_segments (f_x0 :: fm ++ [f_xn]) ks)
+  | _ => None                                      (* assert!(ks0n.len() >= 3) *)
   end.
 End Builders.
 
